@@ -398,6 +398,8 @@ class TokamakEquilibrium(Equilibrium):
                 psi_outer = min(
                     self.user_options.psi_sol, self.user_options.psi_sol_inner
                 )
+            psi0 = psi1D[-1]
+            psiSOL = np.zeros(0)
             if (self.psi_increasing and psi_outer > psi1D[-1]) or (
                 not self.psi_increasing and psi_outer < psi1D[-1]
             ):
@@ -414,7 +416,9 @@ class TokamakEquilibrium(Equilibrium):
                 # the value and gradient at the plasma edge
                 p0 = pressure[-1]
                 # p = p0 * exp( (psi - psi0) * dpdpsi / p0)
-                pressure = np.concatenate([pressure, p0 * np.exp(psiSOL * dpdpsi / p0)])
+                pressure = np.concatenate(
+                    [pressure, p0 * np.exp((psiSOL - psi0) * dpdpsi / p0)]
+                )
 
         self.magneticFunctionsFromGrid(
             R1D, Z1D, psi2D, self.user_options.psi_interpolation_method
